@@ -440,5 +440,5 @@ func predProm(c promCase, o *evid.Obs) error {
 }
 
 func addProm(r *evid.Run) {
-	evid.Add(r, evid.Prop[promCase]{Name: "prom-select", Quick: 400, Thorough: 4000, Gen: genProm, Pred: predProm})
+	evid.Add(r, evid.Prop[promCase]{Name: "prom-select", Quick: 800, Thorough: 4000, Gen: genProm, Pred: predProm})
 }
